@@ -1018,6 +1018,20 @@ package rpc
 //@   ensures [C04 C06] implies(!isnil(c.headerEncoder) && old(c.closed) == 0 && len(old(ctx.Error)) == 0 && old(ctx.upgrade.NoResponse) != 1, gg_cmarshal() == old(gg_cmarshal()) + 2)
 //@   ensures [C04 C06] implies(!isnil(c.headerEncoder) && old(c.closed) == 0 && !(len(old(ctx.Error)) == 0 && old(ctx.upgrade.NoResponse) != 1), gg_cmarshal() == old(gg_cmarshal()) + 1)
 
+// default-header read paths: a fresh (or fully reset) header object goes into the decoder (its precondition: all fields empty, since the
+// protobuf decoder only assigns fields present on the wire), and the context receives exactly the decoded fields
+//@ func (*clientCodec).ReadResponseHeader
+//@   property C01 C06 C07 C08
+//@   requires c != nil && ctx != nil
+//@   modifies *ctx
+//@   ensures [C01 C06] implies(err != nil, ctx.Seq == old(ctx.Seq))
+//@   ensures [C01 C08 C11] implies(err == nil && isnil(c.headerEncoder), sub(ctx.value, old(ctx.data)))
+//@ func (*serverCodec).ReadRequestHeader
+//@   property C01 C04 C07 C08
+//@   requires c != nil && ctx != nil
+//@   modifies *ctx
+//@   ensures [C01 C04] implies(err != nil, ctx.Seq == old(ctx.Seq))
+//@   ensures [C01 C08 C11] implies(err == nil && isnil(c.headerEncoder), sub(ctx.value, old(ctx.data)) && sub(ctx.Upgrade, old(ctx.data)))
 //@ field serverCodec.closed: quiescent
 //@ field clientCodec.closed: quiescent
 //@ func (*clientCodec).WriteRequest
